@@ -44,8 +44,8 @@ type pipeGen struct {
 	gated  bool
 	// weights
 	wSingle, wMulti, wPing, wAuth, wReject, wQuit int
-	maxMultiKeys                                 int
-	errFrag                                      int // 1 in errFrag split requests gets one fragment answered with an error (0 = never)
+	maxMultiKeys                                  int
+	errFrag                                       int // 1 in errFrag split requests gets one fragment answered with an error (0 = never)
 }
 
 func (g *pipeGen) ownerIdx(slot int) int {
@@ -134,7 +134,9 @@ func (g *pipeGen) multi() *PReq {
 		// answered with one error, whatever arrives before or after it
 		bad := order[g.rng.Intn(len(order))]
 		pl := g.script.Plan(bySlot[bad][0])
-		pl.Act = func(*BReq) Action { return Action{Reply: ErrReply("WRONGTYPE Operation against a key holding the wrong kind of value")} }
+		pl.Act = func(*BReq) Action {
+			return Action{Reply: ErrReply("WRONGTYPE Operation against a key holding the wrong kind of value")}
+		}
 		r.ExpectErr = true
 	}
 	switch g.rng.Intn(3) {
@@ -372,7 +374,6 @@ func expDesc(r *PReq) string {
 	}
 	return Q(r.Expect)
 }
-
 
 // deepPipeline sends n GETs on one connection: the first one is gated on its
 // node, all others go to other nodes and complete at once, so that n-1
